@@ -7,8 +7,8 @@ func init() {
 		Trusted:     trustedCommon,
 	})
 	reg("C17", &PropSpec{
-		Rules:       []Rule{r("Q1", RuleQ1), r("S1c,S1f", RuleS1("S1c", "S1f")), r("AP1", RuleAP1), r("Q2", RuleQ2), r("WQ1", RuleWQ1)},
-		Explanation: "The rejection clauses of the property are decided on the quoted-parameter sub-automaton, found by role (the state entered by the arm that begins a Parameter lexeme on '\"'): a line end or end of input inside quotes is an error arm with no effect, a backslash enters an escape state that continues only on \\ and \" and is an error arm on every other byte, the closing quote emits ParameterEnd at its own position, every other byte stays inside. Plus S1c/S1f on all states: parameter lexemes are well formed and ordered; AP1: AppendParameter stores the unescaped text itself on every path (no transformation between the lexeme and the catalog). Not decided: that the decoded value equals what was written (unescapeParameter is a pure string function over all strings). Unquote is applied to the value as written (Q2). The unquoted-parameter state ends the lexeme on the current byte alone - no look-back, no data-dependent predicate (WQ1); a quote test or a second Unquote is never asked of an already unquoted value (Q2). After the unescaped value has a name of its own the raw lexeme is not used again (AP1 raw-after-unescape).",
+		Rules:       []Rule{r("Q1", RuleQ1), r("S1c,S1f", RuleS1("S1c", "S1f")), r("AP1", RuleAP1), r("Q2", RuleQ2), r("WQ1", RuleWQ1), r("PQ1", RulePQ1), r("UB1", RuleUB1)},
+		Explanation: "The rejection clauses of the property are decided on the quoted-parameter sub-automaton, found by role (the state entered by the arm that begins a Parameter lexeme on '\"'): a line end or end of input inside quotes is an error arm with no effect, a backslash enters an escape state that continues only on \\ and \" and is an error arm on every other byte, the closing quote emits ParameterEnd at its own position, every other byte stays inside. Plus S1c/S1f on all states: parameter lexemes are well formed and ordered; AP1: AppendParameter stores the unescaped text itself on every path (no transformation between the lexeme and the catalog). Not decided: that the decoded value equals what was written (unescapeParameter is a pure string function over all strings). Unquote is applied to the value as written (Q2). The unquoted-parameter state ends the lexeme on the current byte alone - no look-back, no data-dependent predicate (WQ1); a quote test or a second Unquote is never asked of an already unquoted value (Q2). After the unescaped value has a name of its own the raw lexeme is not used again (AP1 raw-after-unescape). The scanner's own looks at the parameters of the directive just read go through Unquote() (PQ1), and no byte of the document is classified with a unicode predicate (UB1: a continuation byte is not white space), so the bare and the quoted spelling are cut and judged alike.",
 		Trusted:     trustedCommon,
 	})
 	reg("C14", &PropSpec{
